@@ -55,14 +55,366 @@ static bool pathOp(HxLine& l)
   return false;
 }
 
+// ---------------------------------------------------------------------------------------------
+// file-system ops: scratch world BASE = $TMPDIR/nstd-verif-<pid> with BASE/s (working directory)
+// and BASE/o (the outside sentinel).  Absolute paths of the op lines are relative to BASE.
+#include <errno.h>
+#include <unistd.h>
+#include <fcntl.h>
+#include <dirent.h>
+#include <sys/stat.h>
+#include <sys/types.h>
+#include <sys/syscall.h>
+
+static char BASE[512];
+static size_t BASELEN;
+
+// interposed calls (the executable's definitions win over libc's); the real call goes through syscall()
+static int g_sf_mode = -1, g_sf_fired = 0;
+static long g_mk_countdown = -1;
+static int g_mk_fired = 0;
+static long g_total_sf = 0, g_total_mk = 0;
+
+extern "C" ssize_t sendfile(int out, int in, off_t* off, size_t count)
+{
+  if(g_sf_mode == 0) { g_sf_mode = -1; ++g_sf_fired; ++g_total_sf; errno = EIO; return -1; }
+  if(g_sf_mode == 1) { g_sf_mode = -1; ++g_sf_fired; ++g_total_sf; return syscall(SYS_sendfile, out, in, off, count / 2); }
+  return syscall(SYS_sendfile, out, in, off, count);
+}
+extern "C" ssize_t sendfile64(int out, int in, off64_t* off, size_t count) { return sendfile(out, in, (off_t*)off, count); }
+
+static int rawMkdir(const char* path, mode_t mode) { return (int)syscall(SYS_mkdir, path, mode); }
+extern "C" int mkdir(const char* path, mode_t mode)
+{
+  if(g_mk_countdown == 0) { g_mk_countdown = -1; ++g_mk_fired; ++g_total_mk; errno = EIO; return -1; }
+  if(g_mk_countdown > 0) --g_mk_countdown;
+  return rawMkdir(path, mode);
+}
+
+static void die(const char* what) { fprintf(stderr, "harness: %s: %s\n", what, strerror(errno)); exit(3); }
+
+static void rawRemoveTree(const char* path, bool self)
+{
+  DIR* d = opendir(path);
+  if(d)
+  {
+    struct dirent* e;
+    while((e = readdir(d)))
+    {
+      if(!strcmp(e->d_name, ".") || !strcmp(e->d_name, "..")) continue;
+      char sub[2048];
+      snprintf(sub, sizeof(sub), "%s/%s", path, e->d_name);
+      struct stat st;
+      if(lstat(sub, &st) == 0 && S_ISDIR(st.st_mode)) rawRemoveTree(sub, true);
+      else unlink(sub);
+    }
+    closedir(d);
+  }
+  if(self) rmdir(path);
+}
+
+static void rawWriteFile(const char* path, const char* data, size_t len)
+{
+  int fd = open(path, O_CREAT | O_TRUNC | O_WRONLY | O_CLOEXEC, 0644);
+  if(fd < 0) die(path);
+  if(len && write(fd, data, len) != (ssize_t)len) die("write");
+  close(fd);
+}
+
+static void fsReset()
+{
+  char p[1024];
+  if(!BASE[0])
+  {
+    const char* t = getenv("TMPDIR");
+    snprintf(BASE, sizeof(BASE), "%s/nstd-verif-%ld", t && *t ? t : "/tmp", (long)getpid());
+    BASELEN = strlen(BASE);
+    if(rawMkdir(BASE, 0755) != 0 && errno != EEXIST) die(BASE);
+  }
+  if(chdir(BASE) != 0) die("chdir");
+  rawRemoveTree(BASE, false);
+  snprintf(p, sizeof(p), "%s/s", BASE); if(rawMkdir(p, 0755) != 0) die(p);
+  snprintf(p, sizeof(p), "%s/o", BASE); if(rawMkdir(p, 0755) != 0) die(p);
+  snprintf(p, sizeof(p), "%s/o/of", BASE); rawWriteFile(p, "OUT", 3);
+  snprintf(p, sizeof(p), "%s/o/od", BASE); if(rawMkdir(p, 0755) != 0) die(p);
+  snprintf(p, sizeof(p), "%s/o/od/x", BASE); rawWriteFile(p, "X", 1);
+  snprintf(p, sizeof(p), "%s/s", BASE); if(chdir(p) != 0) die("chdir s");
+  g_sf_mode = -1; g_mk_countdown = -1;
+}
+
+static void fsCleanup()
+{
+  if(BASE[0])
+  {
+    if(chdir("/") != 0) {}
+    rawRemoveTree(BASE, true);
+  }
+}
+
+// snapshot of the whole world
+static char** snapLines; static size_t snapN, snapCap;
+static void snapAdd(char* l)
+{
+  if(snapN == snapCap) { snapCap = snapCap ? snapCap * 2 : 64; snapLines = (char**)realloc(snapLines, snapCap * sizeof(char*)); }
+  snapLines[snapN++] = l;
+}
+static void hexInto(char*& w, const char* data, size_t len)
+{
+  static const char* d = "0123456789abcdef";
+  if(!len) { *w++ = '-'; return; }
+  for(size_t i = 0; i < len; ++i) { *w++ = d[(unsigned char)data[i] >> 4]; *w++ = d[(unsigned char)data[i] & 15]; }
+}
+static void snapWalk(const char* abs, const char* rel)
+{
+  DIR* d = opendir(abs);
+  if(!d) return;
+  struct dirent* e;
+  while((e = readdir(d)))
+  {
+    if(!strcmp(e->d_name, ".") || !strcmp(e->d_name, "..")) continue;
+    char sub[2048], subrel[2048];
+    snprintf(sub, sizeof(sub), "%s/%s", abs, e->d_name);
+    snprintf(subrel, sizeof(subrel), "%s%s%s", rel, *rel ? "/" : "", e->d_name);
+    struct stat st;
+    if(lstat(sub, &st) != 0) continue;
+    if(S_ISDIR(st.st_mode))
+    {
+      char* l = (char*)malloc(2 * strlen(subrel) + 8); char* w = l;
+      *w++ = 'd'; *w++ = ':'; hexInto(w, subrel, strlen(subrel)); *w = 0;
+      snapAdd(l);
+      snapWalk(sub, subrel);
+    }
+    else if(S_ISLNK(st.st_mode))
+    {
+      char tgt[2048];
+      ssize_t n = readlink(sub, tgt, sizeof(tgt) - 1);
+      if(n < 0) n = 0;
+      tgt[n] = 0;
+      const char* t = tgt;
+      if((size_t)n >= BASELEN && !strncmp(tgt, BASE, BASELEN) && (tgt[BASELEN] == '/' || !tgt[BASELEN])) t = tgt + BASELEN;
+      char* l = (char*)malloc(2 * strlen(subrel) + 2 * strlen(t) + 8); char* w = l;
+      *w++ = 'l'; *w++ = ':'; hexInto(w, subrel, strlen(subrel)); *w++ = ':'; hexInto(w, *t ? t : "/", *t ? strlen(t) : 1); *w = 0;
+      snapAdd(l);
+    }
+    else
+    {
+      char* buf = (char*)malloc((size_t)st.st_size + 1);
+      int fd = open(sub, O_RDONLY | O_CLOEXEC);
+      ssize_t n = fd >= 0 ? read(fd, buf, (size_t)st.st_size) : 0;
+      if(fd >= 0) close(fd);
+      if(n < 0) n = 0;
+      char* l = (char*)malloc(2 * strlen(subrel) + 2 * (size_t)n + 8); char* w = l;
+      *w++ = 'f'; *w++ = ':'; hexInto(w, subrel, strlen(subrel)); *w++ = ':'; hexInto(w, buf, (size_t)n); *w = 0;
+      free(buf);
+      snapAdd(l);
+    }
+  }
+  closedir(d);
+}
+static int cmpStr(const void* a, const void* b) { return strcmp(*(char* const*)a, *(char* const*)b); }
+static void putSnapshot()
+{
+  snapN = 0;
+  snapWalk(BASE, "");
+  qsort(snapLines, snapN, sizeof(char*), cmpStr);
+  printf(" |");
+  for(size_t i = 0; i < snapN; ++i) { printf(" %s", snapLines[i]); free(snapLines[i]); }
+  hxEndLine();
+}
+
+// paths that lexically climb above the world root are rejected (the model's root is the real BASE directory)
+static bool lexInside(const char* p, size_t n)
+{
+  long depth = (n && p[0] == '/') ? 0 : 1;
+  size_t i = 0;
+  while(i < n)
+  {
+    while(i < n && p[i] == '/') ++i;
+    size_t b = i;
+    while(i < n && p[i] != '/') ++i;
+    size_t len = i - b;
+    if(len == 0 || (len == 1 && p[b] == '.')) continue;
+    if(len == 2 && p[b] == '.' && p[b + 1] == '.') { if(--depth < 0) return false; }
+    else ++depth;
+  }
+  return true;
+}
+
+// op-line path -> real path (absolute paths live under BASE)
+static String xl(const char* tok, bool& ok)
+{
+  size_t n = 0;
+  char* p = hxCStr(tok, n);
+  for(size_t i = 0; i < n; ++i) if(p[i] == '\\') ok = false;
+  if(!lexInside(p, n)) ok = false;
+  String r;
+  if(n && p[0] == '/') r.append(BASE, BASELEN);
+  r.append(p, n);
+  free(p);
+  return r;
+}
+
+static bool lastIsName(const String& s)
+{
+  const char* p = s; size_t n = s.length();
+  while(n && p[n - 1] == '/') --n;
+  size_t e = n;
+  while(n && p[n - 1] != '/') --n;
+  size_t len = e - n;
+  if(len == 0) return false;
+  if(len == 1 && p[n] == '.') return false;
+  if(len == 2 && p[n] == '.' && p[n + 1] == '.') return false;
+  return true;
+}
+
+static int cmpHexName(const void* a, const void* b) { return strcmp(*(char* const*)a, *(char* const*)b); }
+
+static void runScript(File& f, char* script)
+{
+  for(char* it = strtok(script, ","); it; it = strtok(0, ","))
+  {
+    if(it[0] == 'w')
+    {
+      size_t n = 0; char* d = hxCStr(it + 1, n);
+      String data(d, n); free(d);
+      printf(" w=%d", f.write(data) ? 1 : 0);
+    }
+    else if(it[0] == 'r')
+    {
+      String d;
+      if(f.readAll(d)) { printf(" r="); hxPutHex((const char*)d, d.length()); }
+      else printf(" r=fail");
+    }
+    else if(it[0] == 'z') printf(" z=%lld", (long long)f.size());
+    else if(it[0] == 's' && it[1] >= '0' && it[1] <= '2' && it[2] == ':')
+      printf(" s=%lld", (long long)f.seek((int64)strtoll(it + 3, 0, 10), (File::Position)(it[1] - '0')));
+    else { printf(" bad"); return; }
+  }
+}
+
+static bool g_needReset = true;
+// returns false when the line is no fs op (or a rejected one)
+static bool fsOp(HxLine& l)
+{
+  bool ok = true;
+  if(l.ntok < 2 || strncmp(l.tok[0], "fs", 2) != 0) return false;
+  if(g_needReset) { fsReset(); g_needReset = false; }
+  String p = xl(l.tok[1], ok);
+  if(!ok) return false;
+  if(hxIs(l, "fsmkdir", 1)) printf("%d", rawMkdir(p, 0755) == 0 ? 1 : 0);
+  else if(hxIs(l, "fsmkfile", 2))
+  {
+    size_t n = 0; char* d = hxCStr(l.tok[2], n);
+    int fd = open(p, O_CREAT | O_TRUNC | O_WRONLY | O_CLOEXEC, 0644);
+    if(fd >= 0) { if(n && write(fd, d, n) != (ssize_t)n) die("write"); close(fd); }
+    free(d);
+    printf("%d", fd >= 0 ? 1 : 0);
+  }
+  else if(hxIs(l, "fssymlink", 2))
+  {
+    String q = xl(l.tok[2], ok);
+    if(!ok) return false;
+    printf("%d", File::createSymbolicLink(p, q) ? 1 : 0);
+  }
+  else if(hxIs(l, "fscreate", 1)) printf("%d", Directory::create(p) ? 1 : 0);
+  else if(hxIs(l, "fscreateabs", 1))
+  {
+    if(((const char*)p)[0] == '/') return false;
+    String q(BASE, BASELEN); q.append("/s/"); q.append(p);
+    printf("%d", Directory::create(q) ? 1 : 0);
+  }
+  else if(hxIs(l, "fscreatef", 2))
+  {
+    g_mk_countdown = (long)hxNum(l, 2); g_mk_fired = 0;
+    bool r = Directory::create(p);
+    g_mk_countdown = -1;
+    printf("%d fired=%d", r ? 1 : 0, g_mk_fired);
+  }
+  else if(hxIs(l, "fsrmdir", 2))
+  {
+    if(!lastIsName(p) || (l.tok[2][0] != '0' && l.tok[2][0] != '1') || l.tok[2][1]) return false;
+    printf("%d", Directory::unlink(p, l.tok[2][0] == '1') ? 1 : 0);
+  }
+  else if(hxIs(l, "fsunlink", 1))
+  {
+    if(!lastIsName(p)) return false;
+    printf("%d", File::unlink(p) ? 1 : 0);
+  }
+  else if(hxIs(l, "fsrename", 3) || hxIs(l, "fscopy", 3) || hxIs(l, "fscopyf", 4))
+  {
+    String q = xl(l.tok[2], ok);
+    if(!ok || !lastIsName(q) || (l.tok[3][0] != '0' && l.tok[3][0] != '1') || l.tok[3][1]) return false;
+    bool fie = l.tok[3][0] == '1';
+    if(hxIs(l, "fsrename", 3))
+    {
+      if(!lastIsName(p)) return false;
+      printf("%d", File::rename(p, q, fie) ? 1 : 0);
+    }
+    else if(hxIs(l, "fscopy", 3)) printf("%d", File::copy(p, q, fie) ? 1 : 0);
+    else
+    {
+      if((l.tok[4][0] != '0' && l.tok[4][0] != '1') || l.tok[4][1]) return false;
+      g_sf_mode = l.tok[4][0] - '0'; g_sf_fired = 0;
+      bool r = File::copy(p, q, fie);
+      g_sf_mode = -1;
+      printf("%d fired=%d", r ? 1 : 0, g_sf_fired);
+    }
+  }
+  else if(hxIs(l, "fsexists", 1)) printf("%d %d", File::exists(p) ? 1 : 0, Directory::exists(p) ? 1 : 0);
+  else if(hxIs(l, "fsreadall", 1))
+  {
+    String d;
+    if(File::readAll(p, d)) { printf("1 "); hxPutHex((const char*)d, d.length()); }
+    else printf("0");
+  }
+  else if(hxIs(l, "fsls", 1))
+  {
+    Directory d;
+    if(!d.open(p, String(), false)) printf("ls=0");
+    else
+    {
+      char* items[256]; size_t n = 0;
+      String name; bool isDir;
+      while(n < 256 && d.read(name, isDir))
+      {
+        char* it = (char*)malloc(2 * name.length() + 8); char* w = it;
+        hexInto(w, name, name.length()); *w++ = ':'; *w++ = isDir ? '1' : '0'; *w = 0;
+        items[n++] = it;
+      }
+      qsort(items, n, sizeof(char*), cmpHexName);
+      printf("ls=1");
+      for(size_t i = 0; i < n; ++i) { printf(" %s", items[i]); free(items[i]); }
+    }
+  }
+  else if(hxIs(l, "fsfile", 3))
+  {
+    unsigned long flags = hxNum(l, 2);
+    if(flags >= 16) return false;
+    File f;
+    if(!f.open(p, (uint)flags)) printf("open=0");
+    else
+    {
+      printf("open=1");
+      runScript(f, l.tok[3]);
+      f.close();
+    }
+  }
+  else return false;
+  putSnapshot();
+  return true;
+}
+
 int main()
 {
   HxLine l;
+  atexit(fsCleanup);
   while(hxRead(l))
   {
-    if(hxIs(l, "reset", 0)) { printf("ok"); hxEndLine(); continue; }
+    if(hxIs(l, "reset", 0)) { g_needReset = true; printf("ok"); hxEndLine(); continue; }
     if(pathOp(l)) continue;
+    if(fsOp(l)) continue;
     printf("bad-op"); hxEndLine();
   }
+  fprintf(stderr, "faults-fired sendfile=%ld mkdir=%ld\n", g_total_sf, g_total_mk);
   return 0;
 }
